@@ -84,6 +84,9 @@ func (g *Gen) randBytes(n int, lookTags []string) []byte {
 func (g *Gen) randValue(ty string, lookTags []string) []byte {
 	switch ty {
 	case "string", "raw":
+		if g.R.Intn(12) == 0 { // white space at the edges of a value, values that are nothing but white space, control characters
+			return []byte([]string{" x", "x ", " ", "  ", "\tx", "x\t", "\r\n", "x\r", "\nx", " a b ", "\v", "\f x", "\xc2\xa0x", "x\xc2\x85", "\x00", "\x00x", "x\x00", "\x02"}[g.R.Intn(18)])
+		}
 		n := 1 + g.R.Intn(12)
 		if g.R.Intn(10) == 0 {
 			n = 1 + g.R.Intn(200)
@@ -236,6 +239,14 @@ func (g *Gen) RandomCase(lookalike bool, withTrailer bool) *Case {
 			{S2B("35"), S2B("359"), S2B("5"), S2B("3510")},
 			{S2B("8"), S2B("98"), S2B("9"), S2B("89")},
 			{S2B("110"), S2B("10"), S2B("1"), S2B("0")},
+			// long tag numbers (five to nine digits) for each of the framing fields
+			{S2B("10008"), S2B("10009"), S2B("10035"), S2B("10010")},
+			{S2B("8"), S2B("9"), S2B("35"), S2B("100010")},
+			{S2B("8"), S2B("9"), S2B("35"), S2B("1000010")},
+			{S2B("8"), S2B("9"), S2B("35"), S2B("100000010")},
+			{S2B("123456789"), S2B("9"), S2B("35"), S2B("10")},
+			{S2B("8"), S2B("987654321"), S2B("35"), S2B("10")},
+			{S2B("8"), S2B("9"), S2B("3500035"), S2B("10")},
 		}
 		t = alts[g.R.Intn(len(alts))]
 	}
